@@ -148,6 +148,34 @@ def main():
     vt = strip_comments(read("runtime/src/value_type.rs"))
     vts = enum_variants(vt, "ValueType")
 
+    # scalar constants the model copies
+    def const_of(rel, name, ty):
+        src = strip_comments(read(rel))
+        m = re.search(r"(?:const|static)\s+" + name + r"\s*:\s*" + ty + r"\s*=\s*([^;]+);", src)
+        if not m:
+            die(f"constant {name} not found in {rel}")
+        v = m.group(1).strip()
+        if ty == "&str":
+            mm = re.fullmatch(r'"([^"\\]*)"', v)
+            if not mm:
+                die(f"constant {name}: cannot read {v!r}")
+            return mm.group(1)
+        v = v.replace("_", "")
+        if not re.fullmatch(r"[0-9]+", v):
+            die(f"constant {name}: cannot read {v!r}")
+        return int(v)
+    nums = [("INK_SAVE_STATE_VERSION", const_of("runtime/src/story_state.rs", "INK_SAVE_STATE_VERSION", "u32")),
+            ("MIN_COMPATIBLE_LOAD_VERSION", const_of("runtime/src/story_state.rs", "MIN_COMPATIBLE_LOAD_VERSION", "u32")),
+            ("INK_VERSION_CURRENT", const_of("runtime/src/story/mod.rs", "INK_VERSION_CURRENT", "i32")),
+            ("INK_VERSION_MINIMUM_COMPATIBLE", const_of("runtime/src/story/mod.rs", "INK_VERSION_MINIMUM_COMPATIBLE", "i32")),
+            ("MAX_SHUFFLE_ELEMENTS", const_of("runtime/src/story/mod.rs", "MAX_SHUFFLE_ELEMENTS", "i32")),
+            ("MAX_POINTER_CHAIN", const_of("runtime/src/variables_state.rs", "MAX_POINTER_CHAIN", "usize")),
+            ("COUNTFLAGS_VISITS", const_of("runtime/src/container.rs", "COUNTFLAGS_VISITS", "i32")),
+            ("COUNTFLAGS_TURNS", const_of("runtime/src/container.rs", "COUNTFLAGS_TURNS", "i32")),
+            ("COUNTFLAGS_COUNTSTARTONLY", const_of("runtime/src/container.rs", "COUNTFLAGS_COUNTSTARTONLY", "i32"))]
+    strs = [("DEFAULT_FLOW_NAME", const_of("runtime/src/story_state.rs", "DEFAULT_FLOW_NAME", "&str")),
+            ("PARENT_ID", const_of("runtime/src/path.rs", "PARENT_ID", "&str"))]
+
     lines = ["-- GENERATED by translators/tables.py from /repo's Rust source on every run. Do not edit.",
              "namespace Ink.Generated", "",
              "/-- `Op` in declaration order: (variant, JSON name, number of parameters). -/",
@@ -161,6 +189,9 @@ def main():
     lines.append(",\n".join(f"  ({lean_str(v)}, {codes[v]})" for v in pps) + "]")
     lines += ["", "/-- `ValueType` in declaration order (the cast ordinal). -/",
               "def valueTypeRows : List String := [" + ", ".join(lean_str(v) for v in vts) + "]",
+              "", "/-- scalar constants of the runtime -/",
+              "def numConsts : List (String × Nat) := [" + ", ".join(f"({lean_str(k)}, {v})" for k, v in nums) + "]",
+              "def strConsts : List (String × String) := [" + ", ".join(f"({lean_str(k)}, {lean_str(v)})" for k, v in strs) + "]",
               "", "end Ink.Generated", ""]
     text = "\n".join(lines)
     old = None
